@@ -29,6 +29,23 @@ CHECKS = {
         title="HP/DHP dispose every retired object exactly once",
         technique="deterministic simulation with per-object disposer counting, scan-frees-unguarded interval oracle and singleton-destruction check",
     ),
+    "C04": dict(
+        subjects=[("smr.RCU_gpi", 8000, 300000), ("smr.RCU_gpb", 8000, 300000), ("smr.RCU_gpt", 6000, 200000), ("smr.RCU_shb", 6000, 200000)],
+        classes=["reclaimed-under-reader", "synchronize-returned-early", "deref-after-dispose"],
+        expect_probes=["disposed_during_run", "critical_sections", "synchronize_ops", "batch_retire_ops", "reattach"],
+        assumptions=["RCU API calls that may synchronise are never made under a reader lock (documented protocol)"],
+        title="RCU never reclaims under a pre-existing reader",
+        technique="deterministic simulation (seeded schedules; stalled readers, x86-TSO store buffer, spurious condvar wake-ups, delayed signals, thread churn) with a disposal-vs-critical-section interval oracle",
+    ),
+    "C05": dict(
+        subjects=[("smr.RCU_gpi", 5000, 200000), ("smr.RCU_gpb", 8000, 300000), ("smr.RCU_gpt", 6000, 200000), ("smr.RCU_shb", 6000, 200000)],
+        classes=["double-dispose", "never-disposed", "dispose-not-retired", "dispose-unknown"],
+        fatal_classes_as_violation=["hang"],
+        expect_probes=["disposed_during_run", "disposed_at_singleton_destruction", "batch_retire_ops"],
+        assumptions=["RCU API calls that may synchronise are never made under a reader lock (documented protocol)"],
+        title="RCU disposes every retired object exactly once",
+        technique="deterministic simulation with per-object disposer counting through singleton destruction; a run that can never finish (lost buffer entry) counts as a violation",
+    ),
 }
 
 NOT_APPLICABLE = [
